@@ -84,9 +84,12 @@ impl<F: TryFuture> Future for TryJoinAll<F> {
 
     fn poll(mut self: Pin<&mut Self>, cx: &mut Context<'_>) -> Poll<Self::Output> {
         loop {
-            match self.as_mut().queue.poll_inner(cx) {
+            match self.as_mut().queue.poll_inner_no_remove(cx, F::poll) {
                 Poll::Ready(Some((i, Ok(t)))) => {
+                    // store the output first and release the finished future afterwards: should its
+                    // destructor panic, `Drop` still finds "slot vacated" <=> "output written"
                     self.output[i].write(t);
+                    self.queue.tasks.remove(i);
                 }
                 Poll::Ready(Some((failed, Err(e)))) => {
                     // We are done. Drop the outputs collected so far and cancel the futures that
